@@ -1,6 +1,6 @@
 """Property -> rules mapping."""
 from .core import Ctx
-from .rules import k1
+from .rules import k1, reclaim
 
 ALL_FILES = [".hpp"]
 RECL = ["reclamation/"]
@@ -41,7 +41,21 @@ def C03(ctx):
             "sufficiency of the annotated happens-before edges (absence of races in all executions)")
 
 
-PROPS = {"C03": C03}
+def C01(ctx):
+    k1_rules(ctx, "C01")
+    reclaim.reclaim_after_unlink(ctx, [".hpp"])
+    ctx.floor("K4.reclaim-after-unlink", 20)
+    return ("Decides structural necessary conditions of safe reclamation.", "that the schemes are correct under all interleavings")
+
+
+def C10(ctx):
+    k1_rules(ctx, "C10")
+    reclaim.reclaim_after_unlink(ctx, FILES["C10"])
+    ctx.floor("K4.reclaim-after-unlink", 3)
+    return ("Decides structural necessary conditions of the vyukov_hash_map protocol.", "linearizability")
+
+
+PROPS = {"C03": C03, "C01": C01, "C10": C10}
 
 
 def run(prop, tier):
